@@ -51,8 +51,35 @@ pub fn codec_case(case: &Value, dispatch: Dispatch, r: &mut Report) {
     let v = &case["v"];
     let b = bytes_of(&case["b"]);
     let hash = case["hash"].as_bool().unwrap_or(false);
+    let derived = case["derived"].as_bool().unwrap_or(false);
+    let transient = case["transient"].as_bool().unwrap_or(false);
+    let mut extra: Vec<&str> = Vec::new();
+    if derived { extra.push("C02"); }
+    if transient { extra.push("C14"); }
     let perms: Vec<Vec<u8>> = case["perms"].as_array().map(|a| a.iter().map(bytes_of).collect()).unwrap_or_default();
-    let want = match ops.canon(v) {
+    // what decoding must yield (differs from v only where transient fields are reset)
+    let dv = if case.get("dv").map(|x| !x.is_null()).unwrap_or(false) { &case["dv"] } else { v };
+    // the value is not encodable: the specification names the error
+    if let Some(class) = case.get("encerr").and_then(|x| x.as_str()).filter(|x| !x.is_empty()) {
+        r.count("enc_refused");
+        let ctor = case.get("ctor").filter(|c| c.is_array()).map(|c| String::from_utf8(bytes_of(c)).unwrap()).unwrap_or_default();
+        let short = ops.rust_name().rsplit("::").next().unwrap_or("").to_string();
+        let want_detail = format!("{short}::{ctor}");
+        for (i, o) in ops.encode(v).iter().enumerate() {
+            let ok = match o {
+                Outcome::Err(c, d) => *c == class && (class != "TransientCtor" || *d == want_detail),
+                _ => false,
+            };
+            if !ok {
+                let mut props = vec!["C17", "C14"];
+                if class != "TransientCtor" { props = vec!["C17"]; }
+                r.finding("enc_refused", &props, json!({"ty": ops.rust_name(), "v": v, "sink": SINKS[i],
+                    "want": [class, want_detail], "got": enc_json(o)}));
+            }
+        }
+        return;
+    }
+    let want = match ops.canon(dv) {
         Ok(w) => w,
         Err(why) => {
             r.skip(&format!("value outside the glue's domain: {}", why.split(" @ ").next().unwrap_or("")));
@@ -89,7 +116,9 @@ pub fn codec_case(case: &Value, dispatch: Dispatch, r: &mut Report) {
             x == y
         };
         if !bytes_ok {
-            r.finding("enc_bytes", &["C04"], json!({"ty": ops.rust_name(), "v": v, "spec": b, "impl": real, "hash": hash}));
+            let mut props = vec!["C04"];
+            props.extend(extra.iter());
+            r.finding("enc_bytes", &props, json!({"ty": ops.rust_name(), "v": v, "spec": b, "impl": real, "hash": hash}));
         }
         // C15: all sinks agree, the size calculator is exact
         r.count("sinks");
@@ -110,11 +139,17 @@ pub fn codec_case(case: &Value, dispatch: Dispatch, r: &mut Report) {
             }
         }
         // C01: decode(encode(v)) == v
-        expect_dec(ops, real, &want, 0, "roundtrip", &["C01"], r);
+        let mut p = vec![if derived { "C02" } else { "C01" }];
+        if transient { p.push("C14"); }
+        expect_dec(ops, real, &want, 0, "roundtrip", &p, r);
     }
 
     // --- the specification's bytes decode to the value (C04 converse direction)
-    expect_dec(ops, &b, &want, 0, "dec_spec_bytes", &["C04", "C01"], r);
+    {
+        let mut p = vec!["C04", if derived { "C02" } else { "C01" }];
+        if transient { p.push("C14"); }
+        expect_dec(ops, &b, &want, 0, "dec_spec_bytes", &p, r);
+    }
     for p in &perms {
         if *p != b {
             expect_dec(ops, p, &want, 0, "dec_perm", &["C04"], r);
